@@ -276,6 +276,56 @@ def exhaustive_layouts():
 FIXED_PROB = {"title": "fixed problem of the exhaustive layout sub-space", "message": None}
 
 
+# files off the layouts of DESIGN 5.3 that exercise the error paths and the named exclusions of the refinement
+# theorem (correspondence only: the model must do what the code does, whatever MCNP would do)
+EDGE_TEXTS = {
+    "empty": "",
+    "title only": "title",
+    "message unterminated": "message: a\nb\nc\n",
+    "message then eof": "message: a\nb\n\n",
+    "message no blank after colon": "MESSAGE:x\n\nT\n1 0 -1\n",
+    "over-long line": "T\n1 0 -1 " + "9" * 130 + "\n2 0 1\n\n",
+    "exactly 128 columns": "T\n" + "1 0 " + "1" * 124 + "\n2 0 1\n",
+    "exactly 127 columns": "T\n" + "1 0 " + "1" * 123 + "\n2 0 1\n",
+    "& in column 128": "T\n" + "1 0 " + " " * 122 + " &" + "\n2 0 1\n",
+    "vertical format": "T\n1 0 -1\n# 1 2\n3 0 1\n",
+    "# in a comment line": "T\nc # x\n1 0 -1\n",
+    "CR only": "T\r1 0 -1\r\r1 so 5\r",
+    "tabs in columns 1-8": "T\n1 0\t-1\n\timp:n=1\n    \tvol=1\n2 0 1\n",
+    "bare read": "T\nread\n1 0 -1\n",
+    "read with noecho": "T\nread file=a.i noecho\n",
+    "VT line": "T\n1 0 -1\n\x0b\n2 0 1\n",
+    "FS character": "T\n1 0 -1\n\x1c2 0 1\n",
+    "bytes above 126": "T\n1 0 -1 $ caf\xe9\n\xa0\n2 0 1\n",
+    "$-only line": "T\n1 0 -1\n$ only\n     imp:n=1\n",
+    "& before $": "T\n1 0 -1 & $ c\nimp:n=1\n",
+    "blank lines only": "T\n\n\n\n\nnps 1\n",
+    "block of comments": "T\nc a\nc b\n\n1 so 1\n",
+    "trailing comments, no final newline": "T\n1 0 -1\nc x\nc y",
+    "c followed by a tab": "T\nc\tx\n1 0 -1\n",
+    "c in column 6": "T\n1 0 -1\n     c 5\n",
+    "read inside a comment": "T\nc read file=x\n1 0 -1\n",
+    "read=file": "T\nread=file a\n",
+    "mixed-case read card between comments": "T\nc hi\n  rEaD    FiLe  =  a.i  $ x\nc bye\n1 0 -1\n",
+}
+
+
+def unit_edges(chk, drv):
+    cases = [{"main": "m.i", "files": {"m.i": t, "a.i": "5 0 1\n"}, "cwd": ".", "abs": False, "limit": lim}
+             for t in EDGE_TEXTS.values() for lim in (128, 80)]
+    names = [n + "/%d" % lim for n in EDGE_TEXTS for lim in (128, 80)]
+    model = drv.batch([rl.model_case(c) for c in cases])
+    chk.units["U-reader"]["edge_files"] = len(cases)
+    for n, c, m in zip(names, cases, model or []):
+        i = rl.impl_syntax(c)
+        chk.note_case({"edge": n}, True)
+        chk.traces_validated += 1
+        chk.count("edge-outcome:" + str(i["err"]))
+        if i != m and rl.impl_syntax(c) != m:
+            chk.disagreements_checked += 1
+            chk.broken_obligation("correspondence", "U-reader (edge files)", {"impl": i, "model": m}, {"edge": n, "text": c["files"]["m.i"], "limit": c["limit"]})
+
+
 def comment_lines():
     """exhaustive small sub-space for the comment-line rule: indent 0-8 x heads x tails x line ends"""
     heads = ["c", "C", "cc", "c1", "x", "$", "#", "&", ""]
@@ -390,6 +440,7 @@ def run(chk):
     rendered = drv.batch([{"op": "render", "inputs": [inp for blk in l["blocks"] for inp in blk]} for _, _, l in jobs])
 
     unit_is_comment(chk, drv)
+    unit_edges(chk, drv)
 
     ref, ref_lay = {}, {}
     for (pi, prob, lay), o in zip(jobs, obs):
